@@ -512,6 +512,23 @@ def law_sweep(ctx, mc, atm, only=None):
                     k = int(np.argmax((ana - zi < -slack) | (ana - zi > bound * (1 + 1e-9) + slack) | (np.abs(zi - pade) > slack)))
                     bad("pressure2height:isothermal", f"isothermal column at {T0:.2f} K: level {k} at {zi[k]!r} m, (R T / g) ln(p0/p) = {ana[k]!r} m, "
                         f"allowed defect {bound[k]!r} m (n = {n})", dict(case, T0=T0, k=k))
+                # the same column given top first (increasing pressure): z = (R T / g) ln(p0 / p) with p0 the FIRST level is
+                # negative and decreasing there; it is the reversed column shifted by the height of the reference level
+                if p.size > 1:
+                    pr = p[::-1].copy()
+                    zr = np.asarray(call(atm.pressure2height, pr, np.full(pr.size, T0)))
+                    anar = -H * np.log1p((pr - pr[0]) / pr[0])             # (R T / g) ln(p0 / p) <= 0
+                    rm1r = (pr[1:] - pr[:-1]) / pr[:-1]
+                    boundr = H * np.concatenate([[0.0], np.cumsum(rm1r ** 3 / 12)])
+                    slackr = 8 * (np.arange(pr.size) + 64) * EPS * (np.abs(anar) + H * 1e-3)
+                    okr = (zr.shape == pr.shape and zr[0] == 0 and np.all(np.diff(zr) < 0)
+                           and np.all(np.abs(zr - anar) <= boundr * (1 + 1e-9) + slackr)
+                           and np.all(np.abs((zr - zr[-1])[::-1] - zi) <= slackr[::-1] + slack))
+                    evals[0] += 1
+                    if not okr:
+                        bad("pressure2height:isothermal-top-first", f"isothermal column at {T0:.2f} K given top first (increasing pressure, n = {n}): "
+                            f"heights {small(zr)} do not follow (R T / g) ln(p0 / p) = {small(anar)} / are not the reversed column "
+                            f"shifted by the reference level", dict(case, T0=T0))
                 zs = np.asarray(call(atm.pressure2height, p))
                 zt = np.asarray(call(atm.pressure2height, p, call(atm.standard_atmosphere, p, coordinates="pressure")))
                 if zs.shape != zt.shape or not np.all(np.abs(zs - zt) <= 1e-12 * np.maximum(np.abs(zt), 1.0)):
